@@ -13,6 +13,7 @@ type Bounds struct {
 	MaxExecs int           // 0 = unlimited; if hit the result is not exhaustive
 	Deadline time.Time     // zero = none; if hit the result is not exhaustive
 	Horizon  int           // step horizon per execution
+	Livelock bool          // an execution that reaches the step horizon is handed to the check (Exec.HitHorizon) instead of being skipped: for code whose executions are short, running on for ever is a behaviour, not a cap
 	Prune    bool          // state-key pruning: do not branch again from a state (partial order of the prefix) already expanded with at least the same remaining budget
 }
 
@@ -125,16 +126,18 @@ func ExploreFrom(root []int, body func(), check Check, b Bounds) (*Stats, *Viola
 		}
 		if x.HitHorizon {
 			st.HorizonHits++
-			st.Exhaustive = false
-			st.CapHit = "step horizon"
-			continue
+			if !b.Livelock {
+				st.Exhaustive = false
+				st.CapHit = "step horizon"
+				continue
+			}
 		}
 		st.Distinct[x.Hash()] = true
 		if msg := check(x); msg != "" {
 			// believe it only if it reproduces under its own schedule
 			picks := x.Picks()
 			y := Run(picks, body, opt)
-			if y.Diverged == "" && !y.HitHorizon {
+			if y.Diverged == "" && (!y.HitHorizon || b.Livelock) {
 				if msg2 := check(y); msg2 != "" {
 					return st, &Violation{Msg: msg, Picks: picks, Choices: x.Choices}
 				}
